@@ -1,6 +1,6 @@
 (* C09 -- Automatic mode is the most compact mode that can represent the input. *)
 From Coq Require Import NArith List Bool Arith.
-From FQ Require Import Proofs.PropLemmas Model.Types Model.Encode Model.Qr Spec.Iso Spec.Oracles Proofs.BestEncoding Proofs.Build.
+From FQ Require Import Proofs.PropLemmasBuild Model.Types Model.Encode Model.Qr Spec.Iso Spec.Oracles Proofs.BestEncoding Proofs.Build.
 Import ListNotations.
 
 Theorem C09_best_encoding_spec : forall input, best_encoding input = mode_of_idx (oracle_mode input).
